@@ -872,10 +872,8 @@ def check(chk):
 
     def do_build(opt, tags):
         out = os.path.join(rd, "interp-%s%s" % (opt, "-" + tags if tags else ""))
-        # private llgo cache per run: the shared per-tree cache is written by every check running at the same time
-        bdir = os.path.join(rd, "b-%s%s" % (opt, tags))
-        ok, msg = C.llgo_build(HARN, out, opt=opt, tags=tags, rundir=bdir, timeout=1800,
-                               extra_env={"XDG_CACHE_HOME": os.path.join(bdir, "cache")})
+        # (vlib.common gives every check its own llgo package cache, seeded from a smoke-tested golden copy)
+        ok, msg = C.llgo_build(HARN, out, opt=opt, tags=tags, rundir=os.path.join(rd, "b-%s%s" % (opt, tags)), timeout=1800)
         builds[(opt, tags)] = (ok, msg, out)
 
     C.llgo_binary()
